@@ -2,7 +2,9 @@
 open Util
 open Pcapcommon
 
-let run (id : string) (ops : string list) (out : out_channel) =
+type parsed = { writer : bool; be : bool; nano : bool; zc : bool; snap : int; lt : int; pkts : PcapModel.pkt list;
+                cuts_all : bool; cuts : int list }
+let parse (ops : string list) : parsed =
   let writer = ref false and be = ref false and nano = ref false and zc = ref false in
   let snap = ref 0 and lt = ref 0 in
   let pkts = ref [] and cuts_all = ref false and cuts = ref [] in
@@ -22,12 +24,18 @@ let run (id : string) (ops : string list) (out : out_channel) =
     | "cuts" -> if arg = "all" then cuts_all := true
       else if arg <> "" then cuts := Stdlib.List.map int_of_string (split_on ',' arg)
     | _ -> failwith ("c14pcap op: " ^ op)) ops;
-  let pkts = Stdlib.List.rev !pkts in
-  let file, werr =
-    if !writer then
-      let (f, es) = PcapModel.write_file !nano (z_of_int !snap) (z_of_int !lt) pkts in
-      (f, Stdlib.List.map (fun e -> string_of_int (int_of_z e)) es)
-    else (PcapModel.enc_file !be !nano (z_of_int !snap) (z_of_int !lt) pkts, []) in
+  { writer = !writer; be = !be; nano = !nano; zc = !zc; snap = !snap; lt = !lt; pkts = Stdlib.List.rev !pkts;
+    cuts_all = !cuts_all; cuts = !cuts }
+
+let make_file (c : parsed) : BinNums.coq_Z list * BinNums.coq_Z list =
+  if c.writer then PcapModel.write_file c.nano (z_of_int c.snap) (z_of_int c.lt) c.pkts
+  else (PcapModel.enc_file c.be c.nano (z_of_int c.snap) (z_of_int c.lt) c.pkts, [])
+
+let run (id : string) (ops : string list) (out : out_channel) =
+  let c = parse ops in
+  let zc = ref c.zc and cuts_all = ref c.cuts_all and cuts = ref c.cuts in
+  let (file, es) = make_file c in
+  let werr = Stdlib.List.map (fun e -> string_of_int (int_of_z e)) es in
   let step = ref 0 in
   let emit s = Printf.fprintf out "%s\t%d\t%s\n" id !step s; incr step in
   emit ("file=" ^ hex_of_bytes file ^ ";werr=" ^ String.concat "," werr);
@@ -59,3 +67,26 @@ let run (id : string) (ops : string list) (out : out_channel) =
     end) cuts
 
 let registered = Registry.register "C14pcap" run
+
+(* ---- extraction cross-check inside Coq (see c18.ml): the file the writer model produced, the reader run
+   on it and on (at most three of) its truncations, recomputed by vm_compute, must equal what this
+   extracted runner computed. *)
+let to_coq (idx : int) (ops : string list) (out : out_channel) =
+  let c = parse ops in
+  let (file, es) = make_file c in
+  let flen = Stdlib.List.length file in
+  if flen <= 300 then begin
+    let pk = coq_list coq_pkt c.pkts in
+    coq_example_named out (Printf.sprintf "sample_%d_file" idx)
+      (if c.writer then Printf.sprintf "write_file %s %s %s %s" (coq_bool c.nano) (coq_z (z_of_int c.snap)) (coq_z (z_of_int c.lt)) pk
+       else Printf.sprintf "(enc_file %s %s %s %s %s, @nil Z)" (coq_bool c.be) (coq_bool c.nano) (coq_z (z_of_int c.snap)) (coq_z (z_of_int c.lt)) pk)
+      (coq_pair coq_zlist coq_zlist (file, es));
+    let fuel = nat_of_int (flen / 16 + 2) in
+    let read name bytes =
+      coq_example_named out name (Printf.sprintf "pcap_run %s %s [Chunk %s]" (coq_bool c.zc) (coq_nat fuel) (coq_zlist bytes))
+        (coq_run_result coq_rstate (PcapModel.pcap_run c.zc fuel [PcapModel.Chunk bytes])) in
+    read (Printf.sprintf "sample_%d_read" idx) file;
+    let cuts = if c.cuts_all then [flen / 3; flen - 1] else c.cuts in
+    Stdlib.List.iteri (fun i k -> if i < 3 && k >= 0 && k <= flen then read (Printf.sprintf "sample_%d_cut%d_%d" idx i k) (firstn_ml k file)) cuts
+  end
+let registered_coq = Registry.register_coq "C14pcap" (pcap_coq_header, to_coq)
